@@ -42,7 +42,7 @@ LDFLAGS  := $(LDFLAGS_$(V)) -pthread -ldl
 LIBSRC := $(filter-out $(REPO)/SparseGrids/gridtest% $(REPO)/SparseGrids/tsgDpcpp% $(REPO)/SparseGrids/tsgHip%, \
              $(wildcard $(REPO)/SparseGrids/*.cpp)) \
           $(REPO)/InterfaceTPL/tsgGpuNull.cpp \
-          $(REPO)/DREAM/tsgDreamState.cpp $(REPO)/DREAM/tsgDreamLikelyGaussian.cpp \
+          $(REPO)/DREAM/tsgDreamState.cpp $(REPO)/DREAM/tsgDreamLikelyGaussian.cpp $(REPO)/DREAM/tsgDreamSampleWrapC.cpp \
           $(REPO)/DREAM/Optimization/tsgGradientDescent.cpp $(REPO)/DREAM/Optimization/tsgParticleSwarm.cpp $(REPO)/DREAM/Optimization/TasmanianOptimizationWrapC.cpp \
           $(REPO)/Tasgrid/tasgridWrapper.cpp
 LIBOBJ := $(patsubst %.cpp,$(B)/lib/%.o,$(notdir $(LIBSRC)))
